@@ -88,8 +88,8 @@ def manifest():
         engines=[
             dict(name='procsim', path='/verif/vsim/procsim.py', serves_properties=[p for p in ('C16', 'C18', 'C03') if p in CHECKS],
                  kind_free_text='deterministic baton-passing scheduler over real forked processes (shared-mmap state, one pipe per process), seeded interleavings and faults (kill, raise, fork/alloc failure, torn file writes), happens-before race detection on shared buffers'),
-            dict(name='opsim', path='/verif/vsim/opsim.py', serves_properties=[p for p in ('C03', 'C14', 'C17') if p in CHECKS],
-                 kind_free_text='seeded operation-and-fault sequences executed against the real object and a small reference model, per-step oracles, own ddmin shrinker, replay from the case record'),
+            dict(name='opsim', path='/verif/vsim/props/', serves_properties=[p for p in ('C03', 'C14', 'C17') if p in CHECKS],
+                 kind_free_text='seeded operation-and-fault sequences executed against the real object and a small reference model, per-step oracles, own ddmin shrinker, replay from the case record; the operation loops live in props/c03.py, props/c14.py, props/c17.py on top of the shared batch/isolate/shrink/check modules'),
         ],
         checks=checks,
         not_applicable=na,
